@@ -26,4 +26,35 @@ func init() {
 		[]string{"option documentation transcribed in tables.go/rules_opt.go"},
 		ruleOptWriters, ruleOptSetter, ruleOptExcl, func(p *Prog, r *Report) { ruleOptDead(p, r, "mxj") }, rulePairDerived,
 		func(p *Prog, r *Report) { ruleOptScope(p, r) })
+
+	register("C20",
+		"Wrapper conformance in the resolved program: WRAP.compose over every exported function of j2x (16), x2j (16) and the thin x2j-wrapper forms (19): the module calls are exactly the documented composition, each step is applied to the result of the previous one under its err==nil edge, returned values are results of the composition; FWD.param/FWD.variadic: every parameter reaches the wrapped call; OPT.dead for the wrapper's own option. Not decided: value equality of results.",
+		[]string{"wrapper documentation transcribed in rules_wrap.go"},
+		func(p *Prog, r *Report) { ruleWrapCompose(p, r, j2xSpecs()) },
+		func(p *Prog, r *Report) { ruleWrapCompose(p, r, x2jSpecs()) },
+		func(p *Prog, r *Report) { ruleWrapCompose(p, r, x2jwSpecs()) },
+		func(p *Prog, r *Report) {
+			ruleFwdVariadic(p, r, func(n string) bool { return hasPrefixAny(n, "j2x.", "x2j.", "x2jw.") })
+		},
+		func(p *Prog, r *Report) { ruleOptDead(p, r, "x2jw") })
+	register("C16t",
+		"temporary", nil, ruleWrapWriter, ruleWrapConcat, ruleWrapFileLoop,
+		func(p *Prog, r *Report) { ruleWrapCompose(p, r, coreWrapSpecs()) },
+		func(p *Prog, r *Report) { ruleFwdVariadic(p, r, func(n string) bool { return hasPrefixAny(n, "mxj.") }) })
+
+	register("ERRt", "temporary", nil, func(p *Prog, r *Report) {
+		var all []string
+		for _, f := range p.FuncList {
+			if p.Exported(f) {
+				all = append(all, p.Name(f))
+			}
+		}
+		ruleErr(p, r, all, "all exported API")
+	})
+
+	register("ORDt", "temporary", nil, func(p *Prog, r *Report) {
+		roots := concat(grpMapEncode, grpSeqEncode, grpAnyEncode, grpJsonEncode, grpBeautify, []string{"mxj.Map.StringIndent", "mxj.Map.StringIndentNoTypeInfo", "mxj.MapSeq.StringIndent"})
+		ruleOrder(p, r, roots)
+		ruleNondet(p, r, roots)
+	})
 }
